@@ -208,9 +208,13 @@ struct dirent *readdir(DIR *d)
 {
 	CRASH_POINT("readdir");
 	VASSERT(d == (DIR *) &c09_dirobj, "readdir on the open directory");
-#ifdef C09_READDIR_MAY_FAIL
-	if (nondet_bool()) { g_fsfault++; __CPROVER_errno = nondet_int(); return NULL; }
-#endif
+	/* may fail at any call: NULL with errno set (end of directory: NULL, errno unchanged) */
+	if (nondet_bool()) {
+		int e = nondet_int();
+		__CPROVER_assume(e != 0);
+		g_fsfault++; __CPROVER_errno = e;
+		return NULL;
+	}
 	if (g_dmask == 0) return NULL;
 	/* any entry not yet returned, in any order */
 	unsigned k = nondet_uchar() & 3u;
